@@ -11,15 +11,38 @@ def power_run():
     return run_tlc("Power.tla", cfg(invariants=["NoI32Overflow"]), "power_i32", workers=4, timeout=600)
 
 
+def apalache_power():
+    """Power.tla's statement for EVERY integer exponent (SMT, unbounded): a companion run; TLC remains the verdict"""
+    d = os.path.join(WORK, "apalache_power")
+    shutil.rmtree(d, ignore_errors=True)
+    os.makedirs(d, exist_ok=True)
+    t0 = time.time()
+    try:
+        p = subprocess.run(["timeout", "600", "apalache-mc", "check", "--init=Init", "--next=Next", "--inv=Inv", "--length=0",
+                            "--out-dir=" + os.path.join(d, "out"), os.path.join(SPEC, "PowerA.tla")],
+                           cwd=d, stdout=subprocess.PIPE, stderr=subprocess.STDOUT, text=True,
+                           env=dict(os.environ, JVM_ARGS="-Xmx2g -Djava.io.tmpdir=" + d))
+        out = p.stdout
+    except FileNotFoundError:
+        return {"status": "unavailable", "wall_s": 0.0, "tail": "apalache-mc not on PATH"}
+    status = "ok" if "EXITCODE: OK" in out else ("violation" if "EXITCODE: ERROR (12)" in out else "unavailable")
+    return {"status": status, "wall_s": round(time.time() - t0, 1), "tail": out[-600:]}
+
+
 def run(tier):
     chk = Check("C09", tier, "model_checking")
     build_harness("hcore")
     kinds = KINDS_QUICK if tier == "quick" else KINDS_THOROUGH
-    jobs = [power_run, towers_run, tables_run, lambda: refine_run(tier, "refine_c09")]
+    jobs = [power_run, towers_run, tables_run, lambda: refine_run(tier, "refine_c09"), apalache_power]
     for (k, n, m) in kinds:
         jobs.append(lambda k=k, n=n, m=m: machine_run(k, n, m, "OpsPow", depth=3, mant=53, props=False,
                                                       loadset="LoadSetQuick" if tier == "quick" else "LoadSetGeneric"))
     res = parallel(jobs, max_par=5)
+    apa = res.pop(4)
+    chk.cov["apalache_PowerA"] = {"status": apa["status"], "wall_s": apa["wall_s"],
+                                  "what": "n - 1, n - 2, n - 3 stay inside i32 for EVERY integer |n| <= 2^30 (unbounded, SMT)"}
+    if apa["status"] == "violation":
+        chk.violation("Apalache: the i32 statement of PowerA.tla has a counterexample", {"kind": "apalache", "output_tail": apa["tail"]})
     pw, tw, tb, ref = res[:4]
     chk.add_tlc(pw, "i32 arithmetic of powi over all boundary exponents up to 2^30 (overflow decided by division)")
     chk.add_tlc(tw, "closed forms of powi/powf = generalised binomial tower at rational bases x exponents (cubic in n: > 4 exponents per base)")
